@@ -171,6 +171,25 @@ func (p *Program) replayCandidates(fr *FuncResult, model map[string]string, work
 	if wantGauge {
 		cands = candidateModels(model)
 	}
+	// a function that takes the host's random source: the model's inputs with a few byte streams for the source
+	// (all ones first so that a full-width sample is drawn, a small sample, zeros; every stream continues with zeros,
+	// which every modulus accepts)
+	for _, prm := range fr.Exec.Fn.Params {
+		if hasMethod(prm.Type(), "ReadRandom") {
+			var withStreams []map[string]string
+			for _, stream := range []string{strings.Repeat("ff", 32), "0000000000000005", strings.Repeat("ff", 7) + "fe" + strings.Repeat("00", 24) + "07", "", strings.Repeat("80", 32) + "01"} {
+				for _, cm := range cands {
+					m := map[string]string{"__stream": stream}
+					for k, v := range cm {
+						m[k] = v
+					}
+					withStreams = append(withStreams, m)
+				}
+			}
+			cands = withStreams
+			break
+		}
+	}
 	return p.replayCandidateList(fr, cands, work, overlaySrc, wantGauge)
 }
 
@@ -250,6 +269,9 @@ func (p *Program) replayCandidateList(fr *FuncResult, cands []map[string]string,
 		for i := 0; i < nres; i++ {
 			rs = append(rs, fmt.Sprintf("r%d", i))
 		}
+		if me.randomUsed {
+			pre = append([]string{fmt.Sprintf("verifRandStream = verifHex(%q)", cm["__stream"])}, pre...)
+		}
 		body := strings.Join(pre, "\n\t\t")
 		if len(pre) > 0 {
 			body += "\n\t\t"
@@ -300,6 +322,8 @@ func (p *Program) replayCandidateList(fr *FuncResult, cands []map[string]string,
 			// the harness could not build an object the function reads (it is behind an abstraction in the
 			// contract) and passed nil: the crash is the harness's, not the code's
 			verdict = "not replayable: the harness cannot construct " + strings.Join(calls[i].nilSubst, ", ") + " (passed as nil, which the real code dereferences)"
+		} else if oc.Panicked && strings.Contains(oc.PanicType, "verifTooManyDraws") {
+			verdict = "not judged: the real code rejected 100000 draws of the replaying random source, which ends in zeros (termination is not part of the contract)"
 		} else {
 			verdict, violated = p.judge(fr, calls[i].model, &oc, work)
 		}
